@@ -369,9 +369,16 @@ func mapsEqual(x, y any) (err error) {
 	}
 
 	for _, key := range xrv.MapKeys() {
-		xval := xrv.MapIndex(key).Interface()
-		yval := yrv.MapIndex(key).Interface()
-		if err = valuesEqual(xval, yval); err != nil {
+		xval := xrv.MapIndex(key)
+		yval := yrv.MapIndex(key)
+		if !xval.IsValid() || !yval.IsValid() {
+			err = errorf("Map key mismatch")
+			return
+		}
+		if !xval.CanInterface() || !yval.CanInterface() {
+			continue
+		}
+		if err = valuesEqual(xval.Interface(), yval.Interface()); err != nil {
 			return
 		}
 	}
